@@ -54,10 +54,10 @@ class C05(Prop):
     thorough_runs = 80000
 
     def families(self, tier):
-        return [("equiv", 3), ("benign-faults", 2)]
+        return [("equiv", 3), ("benign-faults", 2), ("history", 2)]
 
     def expected_counters(self, tier):
-        return ["probe.walk-checked", "probe.nonempty-subtree", "probe.end-of-mib", "probe.v1-nosuchname-end", "probe.bulk-multiple-requests", "probe.bulk-cap-below-maxrep", "fault.duplicate", "fault.stale", "fault.reply-drop", "probe.suffix-timeout"]
+        return ["probe.walk-checked", "probe.nonempty-subtree", "probe.end-of-mib", "probe.v1-nosuchname-end", "probe.bulk-multiple-requests", "probe.bulk-cap-below-maxrep", "fault.duplicate", "fault.stale", "fault.reply-drop", "probe.suffix-timeout", "probe.walk-after-abandoned-walk"]
 
     def variants(self, rng, family):
         vs = []
@@ -100,7 +100,22 @@ class C05(Prop):
             op = {"id": 1, "s": 0, "op": "walk", "method": method, "oid": gen.oid_text(base), "limit": 400}
             if method == "getbulk" and rng.random() < 0.5:
                 op["max_rep"] = max_rep
-            variants.append({"flavour": fl, "sessions": [sess], "ops": [op]})
+            sessions = [sess]
+            ops = [op]
+            if family == "history":
+                # earlier walks in the same process - abandoned after a few rows, on this or on another
+                # session, from this or another base - must not leak into the walk under test
+                other = {"version": "v2c", "community": comm, "timeout_ns": 1_000_000_000, "max_repetitions": rng.choice([2, 5, 20])}
+                sessions = [sess, other]
+                pre = []
+                for j in range(rng.randint(1, 3)):
+                    ps = rng.choice([0, 1])
+                    pm = rng.choice(["getbulk", "fetch", "getnext"])
+                    if ps == 0 and ver == "v1":
+                        pm = rng.choice(["fetch", "getnext"])
+                    pre.append({"id": 100 + j, "s": ps, "op": "walk", "method": pm, "oid": rng.choice([gen.oid_text(base), "1.3.6.1", "1.3"]), "limit": rng.choice([1, 2, 3])})
+                ops = pre + [op]
+            variants.append({"flavour": fl, "sessions": sessions, "ops": ops})
         scripts = {}
         if family == "benign-faults":
             for k in range(1, 40):
@@ -140,9 +155,12 @@ class C05(Prop):
         rows = plan["agent"]["mib"]
         lost = any(("req" in s and s["req"] == "drop") or any(i.get("k") == "none" for i in s.get("replies", [])) for s in plan.get("scripts", {}).values())
         for r in run.all_runs:
-            if not r.results:
+            mine = [x for x in r.results if x["op"].get("id") == 1]
+            if not mine:
                 continue
-            res = r.results[0]
+            res = mine[0]
+            if len(r.results) > 1:
+                run.sim.count("probe.walk-after-abandoned-walk")
             sess = r.sess_cfg[0]
             method = res["op"]["method"]
             tag = "%s/%s/%s" % (sess["version"], method, r.plan["flavour"])
@@ -156,6 +174,8 @@ class C05(Prop):
             got = [(k, runner.denorm(v)) for k, v in res["ok"]["items"]]
             end = res["ok"]["end"]
             nreq = len(r.exchanges(res))
+            if isinstance(end, dict) and len(r.results) > 1 and False:
+                pass
             if nreq > 2 and method != "getnext":
                 run.sim.count("probe.bulk-multiple-requests")
             if plan["agent"]["cap"] < sess.get("max_repetitions", 20):
